@@ -608,6 +608,42 @@ theorem deleteChar_spec (b : Buf) (h : Inv b) (arg : Int) :
     simp [this]
   · intro h0; simp [h0]
 
+theorem setDoc_inv (b : Buf) (h : Inv b) (t : Text) (c : Int) : Inv (setDoc b t c) := by
+  unfold setDoc; split
+  · unfold Inv; simp; omega
+  · exact h
+
+theorem dropLast_flatten_le (l : List Text) : l.dropLast.flatten.length ≤ l.flatten.length := by
+  induction l with
+  | nil => simp
+  | cons x xs ih =>
+    cases xs with
+    | nil => simp
+    | cons y ys => simp [List.dropLast] at ih ⊢; omega
+
+/-- join_selected_lines: only the selected stretch `text[from:to]` is rewritten (each line of it
+    lstripped of blanks and followed by the separator); text before and after is untouched and the
+    cursor ends inside the text (never negative: the `document` setter clamps at 0). -/
+theorem joinSelected_frame (br : Char → Bool) (b : Buf) (orig : Nat) (sep : Text) :
+    let from_ := min b.cur orig
+    let to := max b.cur orig
+    let lines := (splitLinesPy br ((b.text.take to).drop from_)).map fun l => lstripChar ' ' l ++ sep
+    (joinSelectedLines br b orig sep).text = b.text.take from_ ++ lines.flatten ++ b.text.drop to ∧
+    Inv (joinSelectedLines br b orig sep) := by
+  intro from_ to lines
+  have hle := dropLast_flatten_le lines
+  have hc : (((b.text.take from_ ++ lines.dropLast.flatten).length : Int) - 1)
+      ≤ ((b.text.take from_ ++ lines.flatten ++ b.text.drop to).length : Int) := by
+    simp only [List.length_append]; omega
+  unfold joinSelectedLines
+  simp only [setDoc]
+  rw [if_pos hc]
+  refine ⟨rfl, ?_⟩
+  unfold Inv
+  show (((b.text.take from_ ++ lines.dropLast.flatten).length : Int) - 1).toNat
+      ≤ (b.text.take from_ ++ lines.flatten ++ b.text.drop to).length
+  omega
+
 /-- every single operation keeps the cursor inside the text -/
 theorem step_inv (sp : Char → Bool) (f : Text → Text) (b : Buf) (h : Inv b) (op : Op) :
     Inv (step sp f b op).1 := by
@@ -635,6 +671,8 @@ theorem step_inv (sp : Char → Bool) (f : Text → Text) (b : Buf) (h : Inv b) 
   · unfold selfInsert; exact insertText_inv _ _ _ _
   · exact transposeChars_inv _ h
   · exact transformWords_inv _ _ _ _ h
+  · exact setDoc_inv _ h _ _
+  · exact (joinSelected_frame _ _ _ _).2
 
 /-- after every finite sequence of edit operations the cursor is within `0..len(text)` -/
 theorem run_inv (sp : Char → Bool) (f : Text → Text) (ops : List Op) (b : Buf) (h : Inv b) :
